@@ -1373,6 +1373,15 @@ package server
 //@   at call FormatAofId assert C09.sync.start-position: implies(request.AofId == "" && calls(Decode) == 0, self.waofLock.AofIndex == self.aof.aofFileIndex && self.waofLock.AofOffset == u32(self.aof.aofFileOffset + 1))
 //@   modifies all
 
+// C09: the live-stream sender parks on its wake-up channel only after a look at the ring that FOLLOWS the
+// publication of its idle state (pulledState 0 -> 2): a record pushed between "the ring looked empty" and
+// "marked idle" is otherwise never announced to this follower (the pusher wakes only senders it sees idle)
+// and the follower stays one record behind until some later push. lastcall() orders calls on the path.
+//@ func (*ReplicationServer).SendProcess
+//@   requires self != nil && self.manager != nil && self.manager.bufferQueue != nil && self.bufferCursor != nil
+//@   at call chanrecv#2 assert C09.idle.recheck: lastcall(ReplicationBufferQueue.Pop) > lastcall(CompareAndSwapUint32)
+//@   modifies all
+
 // C10/C03: on a follower, a result frame from the leader is handed to the text client only when it answers the
 // client's outstanding request: the outstanding id is cleared only by a frame that carries exactly that id
 //@ func (*TransparencyBinaryClientProtocol).processTextProcotol
